@@ -13,12 +13,12 @@ def plan(tier, seed):
     cases = 10 if quick else 250            # per shard; 25 % "wrap", 15 % "tb", rest general histories
     nets = ",".join(runner.net_path(f, s) for f, s in NETS)
     common = ["--engine", build.binpath("opt", "texel"), "--nets", nets]
-    args = common + ["--guard", 150000 if quick else 600000, "--max-threads", 4 if quick else 6]
+    args = common + ["--guard", 150000 if quick else 400000, "--max-threads", 4 if quick else 6]
     if quick:
         # one sub-generator per shard: rapidcheck ramps the size from 0 within each run, so few long runs waste fewer cases on
-        # degenerate (empty choice stream) histories than many short ones: 9 x 10 general, 4 x 10 'wrap', 3 x 8 'tb' = 154 cases
-        shards = [dict(bin=("opt", "c14"), args=args + ["--cases", 10, "--wrap", 0, "--tb", 0]) for _ in range(9)]
-        shards += [dict(bin=("opt", "c14"), args=args + ["--cases", 10, "--wrap", 10, "--tb", 0]) for _ in range(4)]
+        # degenerate (empty choice stream) histories than many short ones: 8 x 10 general, 5 x 10 'wrap', 3 x 8 'tb' = 154 cases
+        shards = [dict(bin=("opt", "c14"), args=args + ["--cases", 10, "--wrap", 0, "--tb", 0]) for _ in range(8)]
+        shards += [dict(bin=("opt", "c14"), args=args + ["--cases", 10, "--wrap", 10, "--tb", 0]) for _ in range(5)]
         shards += [dict(bin=("opt", "c14"), args=args + ["--cases", 8, "--wrap", 0, "--tb", 8]) for _ in range(3)]
     else:
         shards = [dict(bin=("opt", "c14"), args=args + ["--cases", cases]) for _ in range(16)]
@@ -39,7 +39,7 @@ def plan(tier, seed):
               "Hash'. Probe = 'go depth 6..11' (depth >= 8 carries a node guard) or 'go nodes n' on a random game position / constructed "
               "placement / <=5-man endgame, Threads 1, Hash 16 (30 %: another size, set in both processes). 4 synthetic nets. Non-trivial = "
               "distinct case whose history has >= 5 searches, or installs a table, or resizes the hash table."),
-        floors={"prior searches = 15": 4 * scale, "prior searches = 16": 4 * scale, "prior searches = 31": 4 * scale, "prior searches = 32": 4 * scale,
+        floors={"prior searches = 15": 3 * scale, "prior searches = 16": 3 * scale, "prior searches = 31": 3 * scale, "prior searches = 32": 3 * scale,
                 "generation counter would wrap to 0 at the probe (aging searches since last resize = 15 mod 16)": 10 * scale,
                 "on-demand tablebase installed in history": 15 * scale, "Hash resize in history": 12 * scale,
                 "related position searched under non-zero contempt (reverted)": 12 * scale,
